@@ -279,6 +279,12 @@ def run_reject(case):
     elif what == "add":
         B = mk(p, q + bad)
         v = expect(RuntimeError, lambda: (A + B) if case["seed"] % 2 else (A - B), "add/sub of (%d,%d) and (%d,%d)" % (p, q, p, q + bad))
+    elif what == "add_rows":
+        # equal column counts, different row counts (a 1-row operand would even broadcast silently)
+        B = mk(p + bad if case["seed"] % 3 else 1 if p != 1 else 2, q)
+        v = expect(RuntimeError, lambda: (A + B) if case["seed"] % 2 else (A - B), "add/sub of (%d,%d) and (%d,%d)" % (p, q, B.shape[-2], q))
+        if v is None:
+            v = expect(RuntimeError, lambda: (B + A) if case["seed"] % 2 else (B - A), "add/sub of (%d,%d) and (%d,%d)" % (B.shape[-2], q, p, q))
     elif what == "herm_nonsquare":
         cls = make_user_class("R_h", ["_mv"])
         M = gen.randn(g, (p, p + bad), dtype)
@@ -497,7 +503,7 @@ def expr_st(draw, tier="quick"):
 
 @st.composite
 def reject_st(draw):
-    return {"what": draw(st.sampled_from(["mv", "mm", "rmv", "rmm", "matmul", "add", "herm_nonsquare", "herm_notherm", "no_mv", "scalar_type"])),
+    return {"what": draw(st.sampled_from(["mv", "mm", "rmv", "rmm", "matmul", "add", "add_rows", "herm_nonsquare", "herm_notherm", "no_mv", "scalar_type"])),
             "kind": draw(st.sampled_from(["mv", "mv_rmv", "mv_mm", "all", "dense", "lenient", "lenient"])),
             "p": draw(st.integers(1, 4)), "q": draw(st.integers(1, 4)), "bad": draw(st.sampled_from([1, 2, 3])),
             "batch": draw(st.lists(st.integers(1, 2), max_size=2)), "dtype": draw(st.sampled_from(["f64", "c128", "f32"])),
